@@ -185,11 +185,16 @@ func c03InlineSafe(c c03SrcCmd) bool {
 			return false
 		}
 		for _, x := range b {
-			if x <= ' ' || x >= 0x7f {
-				return false
+			if x == ' ' || x == '\r' || x == '\n' || x == 0 {
+				return false // the only bytes an inline line cannot carry inside an argument
 			}
 		}
 		return true
+	}
+	for _, x := range []byte(c.name) {
+		if x <= ' ' || x >= 0x7f {
+			return false
+		}
 	}
 	if !ok([]byte(c.name)) || strings.ContainsAny(c.name[:1], "*$+-:") {
 		return false
